@@ -38,4 +38,28 @@ theorem gen_encode_refuses_iff (c : Wal.Cfg) (data : Bytes)
 /-- CRC comparison of `Decode` -/
 theorem gen_crc_eq (a b : Nat) : Gen.C15.decodeCrcMismatch a b = decide (a ≠ b) := rfl
 
+/-- the `nc > 0` test after the first read of `Decode` (F38) is the model's `b1 ≠ []` -/
+theorem gen_short_checksum_read (b1 : Bytes) :
+    Gen.C15.decodeShortChecksumRead (b1.length : Int) = decide (b1 ≠ []) := by
+  unfold Gen.C15.decodeShortChecksumRead
+  cases b1 with
+  | nil => rfl
+  | cons x xs =>
+    simp only [List.length_cons, ne_eq, reduceCtorEq, not_false_eq_true, decide_true, decide_eq_true_eq]
+    omega
+
+/-- when the first read meets the end of the input the model reports corruption exactly when the
+source's test fires (bytes were read: a record torn inside its checksum field), and the clean end of
+the log otherwise -/
+theorem gen_first_read_eof {σ : Type} (c : Wal.Cfg) (rd : Nat → σ → Bytes × Wal.RErr × σ) (s s1 : σ)
+    (b1 : Bytes) (h : rd 4 s = (b1, .eof, s1)) :
+    Wal.decodeWith c rd s =
+      if Gen.C15.decodeShortChecksumRead (b1.length : Int) then (0, .corrupt s1) else (0, .eof) := by
+  rw [gen_short_checksum_read]
+  unfold Wal.decodeWith
+  rw [h]
+  by_cases hb : b1 = []
+  · simp [hb]
+  · simp [hb]
+
 end KV.Wal.GenBridge
